@@ -1,0 +1,40 @@
+//go:build verif
+
+// Verification hooks for property C05 (build tag "verif"): thin exported
+// wrappers around the unexported dispatch-time checks of Server, used by the
+// /verif correspondence harness. Add-only; nothing here is compiled without
+// the tag and no existing line is changed.
+package server
+
+import "github.com/bbockelm/cedar/security"
+
+// VerifCommandLevelSatisfied exposes commandLevelSatisfied.
+func (s *Server) VerifCommandLevelSatisfied(realCmd int, authenticated, encrypted bool) bool {
+	return s.commandLevelSatisfied(realCmd, authenticated, encrypted)
+}
+
+// VerifSessionSatisfies exposes sessionSatisfies (true = the session may run realCmd).
+func (s *Server) VerifSessionSatisfies(realCmd int, peerAddr string, neg *security.SecurityNegotiation) bool {
+	return s.sessionSatisfies(realCmd, peerAddr, neg) == nil
+}
+
+// VerifAuthorized exposes authorized; it reports false when no Authorizer is set
+// (authorized itself would dereference the nil func).
+func (s *Server) VerifAuthorized(realCmd int, peerAddr, user string) bool {
+	if s.Authorizer == nil {
+		return false
+	}
+	return s.authorized(realCmd, peerAddr, user)
+}
+
+// VerifLookup exposes lookup: whether the command is registered, whether its
+// handler is raw, and its authorization levels.
+func (s *Server) VerifLookup(command int) (registered, raw bool, perms []string) {
+	h, ok := s.lookup(command)
+	return ok, h.raw, h.perms
+}
+
+// VerifPostAuthPolicy exposes postAuthPolicy.
+func (s *Server) VerifPostAuthPolicy(authUser, peerAddr string, authenticated, encrypted bool) (string, []int) {
+	return s.postAuthPolicy(authUser, peerAddr, authenticated, encrypted)
+}
